@@ -314,7 +314,7 @@ class Wire:
         if self.state != "open":
             raise WireError("read_error", "closed locally")
         if fault == "read_error":
-            self.peer_closed = True
+            self._break(discard=True)
             raise WireError("read_error", "injected")
         if fault == "eof":
             # the server side vanishes: pending output is lost, FIN arrives now
@@ -344,6 +344,22 @@ class Wire:
             if deadline is not None:
                 c.append(deadline)
             yield (min(c) if c else None)
+
+    def _break(self, discard):
+        """Injected connection reset: the peer is gone for good.  What it had already
+        put on the wire stays readable after a failed write (the response may have been
+        in flight) and is lost after a failed read; from then on the socket is readable
+        and every read fails, as on a real reset socket."""
+        w = self.w
+        if discard:
+            self.inq = []
+        else:
+            self.inq = [it for it in self.inq if it[1] is not EOF and it[1] is not RESET]
+        t = max([w.now] + [it[0] for it in self.inq])
+        self.inq.append([t, RESET, False])
+        self._dropped = True
+        self.peer_closed = True
+        self.peer.on_abort(w.now)
 
     def _take(self, max_bytes):
         w = self.w
@@ -437,7 +453,7 @@ class Wire:
             if fault == "write_error":
                 delivered = True
                 self._deliver(n, self._prefix(data))
-                self.peer_closed = True
+                self._break(discard=False)
                 raise WireError("write_error", "injected")
             if self.peer_closed:
                 delivered = True
